@@ -246,33 +246,49 @@ def run_group(crate, features, harnesses, extra=None, nproc=8, timeout=None, har
         m = re.search(r'\*\* (\d+) of (\d+) cover properties satisfied', txt)
         r['covers_sat'] = (int(m.group(1)), int(m.group(2))) if m else None
         if r['verdict'] == 'ERROR':
-            r['output_tail'] = (txt or out)[-2500:]
+            errl = [l for l in out.split('\n') if l.startswith('error')]
+            r['output_tail'] = ('\n'.join(errl[:8]) + '\n' + (txt or out)[-1500:])
         res[h] = r
     return res
 
 
 def run_harnesses(jobs, nproc=8):
-    """jobs: list of dict(crate, features, harness, extra, timeout).  Groups them
-    by (crate, features, extra) and runs one parallel invocation per group; a
-    harness that does not come back SUCCESSFUL is re-run alone with the regular
-    output format to obtain the individual failed checks."""
+    """jobs: list of dict(crate, features, harness, extra, timeout, detail).  Jobs that need
+    check-level detail anyway (`detail`: harnesses whose acceptable outcomes include
+    controlled panics, known findings) are run alone with the regular output format;
+    the others are grouped by (crate, features, extra) into one parallel invocation
+    each, and a harness that does not come back SUCCESSFUL is re-run alone to obtain
+    the individual failed checks."""
+    results = {}
+    detail_jobs = [j for j in jobs if j.get('detail')]
+    group_jobs = [j for j in jobs if not j.get('detail')]
     groups = {}
-    for j in jobs:
+    for j in group_jobs:
         key = (j['crate'], tuple(j['features']) if j.get('features') is not None else None, tuple(j.get('extra') or []))
         groups.setdefault(key, []).append(j)
-    results = {}
     for (crate, feats, extra), js in groups.items():
         feats_l = list(feats) if feats is not None else None
         hto = max(j.get('timeout') or 900 for j in js)
         rg = run_group(crate, feats_l, [j['harness'] for j in js], list(extra), nproc=nproc,
                        timeout=hto * max(1, (len(js) + nproc - 1) // nproc) + 300, harness_timeout=hto)
+        group_broken = all(rg[j['harness']]['verdict'] == 'ERROR' for j in js)
         for j in js:
             r = rg[j['harness']]
+            if group_broken:
+                results[j['harness']] = r
+                continue
             if r['verdict'] != 'SUCCESSFUL' or (r['covers_sat'] and r['covers_sat'][0] != r['covers_sat'][1]):
-                r2 = run_harness(crate, feats_l, j['harness'], list(extra), j.get('timeout'))
-                r2['covers_sat'] = r.get('covers_sat')
-                r = r2
-            results[j['harness']] = r
+                detail_jobs.append(j)
+            else:
+                results[j['harness']] = r
+    if detail_jobs:
+        with ThreadPoolExecutor(max_workers=min(nproc, 6)) as ex:
+            futs = {j['harness']: ex.submit(run_harness, j['crate'], j.get('features'), j['harness'], j.get('extra'), j.get('timeout')) for j in detail_jobs}
+            for h, f in futs.items():
+                r = f.result()
+                m = re.search(r'\*\* (\d+) of (\d+) cover properties satisfied', r.get('raw_text', ''))
+                r['covers_sat'] = None
+                results[h] = r
     return [results[j['harness']] for j in jobs]
 
 
